@@ -57,11 +57,22 @@ pub struct Obs {
     pub harness_errors: Vec<String>,
 }
 
+std::thread_local! {
+    /// attach a user-supplied pool of that many threads to every builder `observe` makes on this thread, BEFORE the
+    /// registrations (the plan must not depend on the pool)
+    static E1_USER_POOL: std::cell::Cell<Option<usize>> = const { std::cell::Cell::new(None) };
+}
+
+pub fn set_e1_user_pool(n: Option<usize>) {
+    E1_USER_POOL.with(|c| c.set(n));
+}
+
 pub fn observe(ops: &[Op], resmap: &[u8], need: Need) -> Obs {
     let info_n = PlanInfo::of(ops).n();
     let ctx = Ctx::new(info_n, resmap.to_vec());
     let mut o = Obs::default();
-    let reg = register(ops, &ctx, None, false);
+    let pool = E1_USER_POOL.with(|c| c.get()).map(|n| Arc::new(rayon::ThreadPoolBuilder::new().num_threads(n).build().unwrap()));
+    let reg = register(ops, &ctx, pool, false);
     o.calls = reg.calls;
     if need.debug {
         o.debug = Some(debug_text(&reg.builder));
@@ -228,7 +239,9 @@ fn others_present(w: &World) -> bool {
 
 fn setup_worlds(ops: &[Op], resmap: &[u8]) -> Vec<(u8, [Option<u64>; 2], [Option<u64>; 2], [Option<u64>; 2], bool)> {
     let mut out = Vec::new();
-    for mask in 0..4u8 {
+    // bit 0: A pre-inserted, bit 1: C pre-inserted, bit 2: the world holds "decoys" - resources of the same two
+    // Rust types under other dynamic ids, which no statically typed data names
+    for mask in 0..8u8 {
         let n = PlanInfo::of(ops).n();
         let ctx = Ctx::new(n, resmap.to_vec());
         let reg = register(ops, &ctx, None, false);
@@ -243,12 +256,24 @@ fn setup_worlds(ops: &[Op], resmap: &[u8]) -> Vec<(u8, [Option<u64>; 2], [Option
         if mask & 2 != 0 {
             w.insert(Cell1(SENT_C));
         }
+        let decoys = mask & 4 != 0;
+        if decoys {
+            for c in [1u8, 4] {
+                w.insert_by_id(concrete_id(c), Cell0(9_000 + c as u64));
+            }
+            for c in [3u8, 5] {
+                w.insert_by_id(concrete_id(c), Cell1(9_000 + c as u64));
+            }
+        }
+        let decoys_intact = |w: &World| -> bool {
+            [1u8, 4].iter().all(|c| w.try_fetch_by_id::<Cell0>(concrete_id(*c)).map(|x| x.0) == Some(9_000 + *c as u64)) && [3u8, 5].iter().all(|c| w.try_fetch_by_id::<Cell1>(concrete_id(*c)).map(|x| x.0) == Some(9_000 + *c as u64))
+        };
         let r = catch_unwind(AssertUnwindSafe(|| {
             d.setup(&mut w);
             let first = ac(&w);
             d.setup(&mut w);
             let second = ac(&w);
-            let extra = others_present(&w);
+            let extra = if decoys { !decoys_intact(&w) } else { others_present(&w) };
             w.remove::<Cell0>();
             w.remove::<Cell1>();
             d.setup(&mut w);
